@@ -180,3 +180,12 @@ func (h *vfHarness) run(now int64, res ...*vfResult) {
 }
 
 func vfDBPath(t *testing.T) string { return filepath.Join(t.TempDir(), "resonate.db") }
+
+// count runs a COUNT query through the observer connection.
+func (h *vfHarness) count(t *testing.T, q string) int {
+	var n int
+	if err := h.db.QueryRow(q).Scan(&n); err != nil {
+		t.Fatal(err)
+	}
+	return n
+}
